@@ -5,6 +5,7 @@ import (
 	"go/constant"
 	"go/token"
 	"go/types"
+	"strings"
 	"unicode/utf8"
 
 	"gosmt/smt"
@@ -12,7 +13,7 @@ import (
 	"golang.org/x/tools/go/ssa"
 )
 
-func constantBool(c *ssa.Const) bool     { return constant.BoolVal(c.Value) }
+func constantBool(c *ssa.Const) bool { return constant.BoolVal(c.Value) }
 func constantString(c *ssa.Const) string {
 	if c.Value.Kind() == constant.String {
 		return constant.StringVal(c.Value)
@@ -419,7 +420,13 @@ func (fr *frame) conv(tdst, tsrc types.Type, x Value) Value {
 		t, ok := x.(*smt.Term)
 		if !ok {
 			if _, isPtr := x.(*Value); isPtr && ud.Kind() == types.Uintptr {
-				panic(engineError("pointer to uintptr conversion"))
+				{
+					var names []string
+					for f := fr; f != nil && len(names) < 14; f = f.caller {
+						names = append(names, f.fn.Name())
+					}
+					panic(engineError("pointer to uintptr conversion (a system call): " + strings.Join(names, " < ")))
+				}
 			}
 			panic(engineError(fmt.Sprintf("conv %v -> %v of %T", tsrc, tdst, x)))
 		}
